@@ -46,10 +46,11 @@ const (
 	opInitWatch
 	opBulkInsert // N objects with primary keys {'a', H+i}: wide fan-out below the key "a", large transactions
 	opBulkDelete
+	opNewTable // registers one more (unused) table while transactions may be open
 	numOpKinds
 )
 
-var opNames = []string{"Begin", "Insert", "InsertWatch", "Modify", "Delete", "DeleteAll", "CAS", "CAD", "Commit", "Abort", "WriteFinished", "Snapshot", "Query", "Watch", "Changes", "Next", "CloseIter", "GC", "RegInit", "MarkDone", "InitWatch", "BulkInsert", "BulkDelete"}
+var opNames = []string{"Begin", "Insert", "InsertWatch", "Modify", "Delete", "DeleteAll", "CAS", "CAD", "Commit", "Abort", "WriteFinished", "Snapshot", "Query", "Watch", "Changes", "Next", "CloseIter", "GC", "RegInit", "MarkDone", "InitWatch", "BulkInsert", "BulkDelete", "NewTable"}
 
 type Op struct {
 	K    int      `json:"k"`
@@ -221,6 +222,7 @@ type hookObs struct {
 
 type interp struct {
 	held []*heldIter
+	extra []statedb.RWTable[*Obj] // tables registered in the middle of the case
 	own  string
 	c    Case
 	opt  Options
@@ -742,6 +744,16 @@ func (in *interp) exec(o Op) string {
 		}
 		in.res.class("bulk_write")
 		return fmt.Sprintf("bulk %d", n)
+	case opNewTable:
+		if len(in.extra) < 4 {
+			tbl, err := newTable(in.db, fmt.Sprintf("x%d", len(in.extra)), TableSpec{})
+			if err != nil {
+				in.viol("C05", "newtable", "NewTable(x%d) failed: %v", len(in.extra), err)
+			}
+			in.extra = append(in.extra, tbl)
+			in.res.class("table_registered_midcase")
+		}
+		return "newtable"
 	case opCommit:
 		in.markElid()
 		if w := in.pickW(o.W); w != nil {
@@ -1194,6 +1206,9 @@ func (in *interp) commit(w *wtxn) {
 	}
 	for t := range in.tbls {
 		if !w.locked[t] {
+			if rev := in.tbls[t].Revision(fresh); rev < pre.tables[t].rev && in.own == "C09" {
+				in.viol("C09", "revision-decreased", "the revision of table t%d went from %d to %d across a Commit that did not target it", t, pre.tables[t].rev, rev)
+			}
 			if d := lightDigest(in.tbls[t], fresh); d != modelDigest(post.tables[t]) {
 				in.viol("C02", "commit-other-table", "after a Commit that did not target table t%d a fresh snapshot shows a different state of it", t)
 			}
@@ -1817,6 +1832,15 @@ func (in *interp) finish() {
 	}
 	in.reaudit(true, 0)
 	in.consumeHeld(nil, 2, "at the end of the case")
+	// tables registered in the middle of the case are usable
+	for i, tbl := range in.extra {
+		wtxn := in.db.WriteTxn(tbl)
+		_, _, err := tbl.Insert(wtxn, &Obj{N: 3000000 + i, ID: []byte{'x'}})
+		rtxn := wtxn.Commit()
+		if _, _, ok := tbl.Get(rtxn, idIndex.Query([]byte{'x'})); err != nil || !ok {
+			in.viol("C05", "newtable-lost", "table x%d registered in the middle of the case: Insert returned %v, Get after Commit found=%v", i, err, ok)
+		}
+	}
 	fresh := in.db.ReadTxn()
 	for t := range in.tbls {
 		in.auditSome(in.tbls[t], fresh, in.cur.tables[t], 0, 0, "final snapshot")
